@@ -28,6 +28,11 @@ Decos == {
   D("blk_stars", <<"/", "*", "*", "*", "w", "c", "w", "*", "*", "*", "/">>),
   D("blk_multi", <<"/", "*", "w", "c", "nl", "w", "*", "w", "c", "nl", "w", "*", "/">>),
   D("blk_tight", <<"/", "*", "c", "*", "/">>),
+  \* a comment that opens with the three characters slash star slash: its second and third character are not a closer
+  D("blk_slash", <<"/", "*", "/", "w", "c", "w", "c", "w", "/", "*", "/">>),
+  D("blk_empty", <<"/", "*", "*", "/">>),
+  \* the opposite direction: the layout between two tokens that do not need it (not two words, not two operator characters) is removed
+  D("tighten", <<>>),
   D("line_plain", <<"/", "/", "w", "c", "nl">>),
   D("line_dq", <<"/", "/", "w", "q", "c", "nl">>),
   D("line_blk", <<"/", "/", "w", "/", "*", "w", "c", "nl">>),
